@@ -40,8 +40,11 @@ def main():
     modules = spec['modules']
     ck.checker_cmd = 'cd lean && lake build fpdriver ' + ' '.join(modules) + ' && lake env lean <#print axioms audit>'
     ck.obligations = list(spec['theorems'])
-    ok, log = L.build_lean(modules)
-    if not ok:
+    skip_proof = os.environ.get('VERIF_SKIP_PROOF') == '1'   # seeded-change evaluation only (tools/seedeval.py)
+    ok, log = (True, '') if skip_proof else L.build_lean(modules)
+    if skip_proof:
+        ck.notes.append('proof step skipped (VERIF_SKIP_PROOF=1): this run is not a verdict')
+    elif not ok:
         proof_ok = False
         ck.notes.append('lake build failed: ' + log[-3000:])
     else:
